@@ -606,6 +606,7 @@ pub fn run(scn: &Scenario, plan: &[(usize, Fate)], abort: &Abort) -> RunLog {
         }
     };
     drop(rt);
+    crate::duo::sim::spin_disarm();
     log.livelock = crate::duo::sim::spin_tripped();
     log
 }
